@@ -100,7 +100,7 @@ Section Emit.
 
   (* the abstraction the acceptance model SaveModel.cksave works on *)
   Definition z0_real_pos (o : mobj) : bool :=
-    forallb (fun z => xeqb (val (snd z)) xq0 && negb (xle (val (fst z)) xq0)) (firstn (m_ports o) (m_z0 o)).
+    forallb (fun z => xeqb (val (snd z)) xq0 && xlt xq0 (val (fst z))) (firstn (m_ports o) (m_z0 o)).   (* !(creal > 0.0): fix DB93 *)
   Definition z0_equal (o : mobj) : bool :=
     match firstn (m_ports o) (m_z0 o) with [] => true | z :: r => forallb (fun y => cx_eqb y z) r end.
   Definition sobj_of (o : mobj) (ft : filetype) (promote : bool) (fmt : list entry) : sobj :=
